@@ -96,6 +96,26 @@ Theorem c18_monotone : forall cf ops more,
 Proof. exact monotone. Qed.
 Print Assumptions c18_monotone.
 
+(** A CancelRequest connection — whatever process id it names (a connected client's, with the right or a
+    wrong secret key, or nobody's) and at any point of any history — changes nothing the admin console shows:
+    not the client registry, not a row, not a pool count.  ([c18_registry_exact] etc. hold for histories that
+    contain [CancelConn] like for all others: the op is part of the alphabet.) *)
+Theorem c18_cancel_inert : forall cf ops pid,
+  let t := run cf ops in let t' := step cf t (CancelConn pid) in
+  creg t' = creg t /\ sreg t' = sreg t /\ cids t' = cids t /\ sids t' = sids t /\
+  (forall c, cl t' c = cl t c) /\ (forall s, sv t' s = sv t s) /\ (forall a, at_ t' a = at_ t a) /\
+  (forall p, show_pools cf t' p = show_pools cf t p) /\ show_lists t' = show_lists t.
+Proof. exact cancel_inert. Qed.
+Print Assumptions c18_cancel_inert.
+
+(** ... whereas a pseudo-client that carried the id it was asked to cancel ([cancel_conn_bad], a seeded change of
+    [Client::cancel]) would unregister its still-connected target when dropped. *)
+Theorem c18_cancel_with_target_id_removes_target :
+  let t := cancel_conn_bad (run cf_w [Login 1 1 true; HandleStart 1]) 1 in
+  creg t = [] /\ c_phase (cl t 1) = PHandle /\ cl_idle (show_pools cf_w t 1) = 0 /\ length (clients_of t 1) = 1.
+Proof. exact cancel_bad_removes_target. Qed.
+Print Assumptions c18_cancel_with_target_id_removes_target.
+
 (** Regression (former defect F31, repaired by /repo ca5e3a4): a client task that panics is removed
     from the registry like any other exit ... *)
 Theorem c18_panic_row_removed :
